@@ -204,6 +204,35 @@ def drive_b(rec, ks, quick):
                 else:
                     ev["a"] = [to_words(int(A[j, c])) for j in range(asz)]
                 events.append(ev)
+        # a large dimension (the vector loops may treat the coefficients in blocks): sampled columns, both halves
+        if k in (1, 19, 44, 62) or not quick:
+            nbig = 4096 if (quick or k % 3) else 16384
+            modsb, epsb = entry_points(L, nbig)
+            asz, rsz = rng.choice([(2, 2), (3, 2), (3, 3), (4, 2)])
+            A = patterns(k, asz, nbig, rng)
+            variant, mk = epsb[k % len(epsb)]
+            rs = range_for(asz, rng) if variant == "range" else None
+            if rec.progress("%s[%s] N=%d k=%d a_size=%d res_size=%d (large dimension)" % (variant, mk, nbig, k, asz, rsz)):
+                got, why = norm_call(L, modsb[mk], variant, nbig, k, A, rsz, False, 0, 0, 0x7F, rng, rs)
+                rec.case(("B-large", variant, mk, k, asz, rsz), nontrivial=True)
+                if got is None:
+                    rec.violation("%s[%s] N=%d k=%d a_size=%d res_size=%d: %s" % (variant, mk, nbig, k, asz, rsz, why), {"variant": variant, "k": k})
+                else:
+                    cols = sorted(set([0, 1, 2047, 2048, 2049, nbig // 2 - 1, nbig // 2, nbig - 1] + [rng.randrange(nbig) for _ in range(40)]))
+                    for c in cols:
+                        ev = {"e": "Norm", "k": k, "rs": rsz, "res": [to_words(int(got[j, c])) for j in range(rsz)],
+                              "_what": "%s[%s] N=%d col=%d (large dimension)" % (variant, mk, nbig, c)}
+                        if variant == "range":
+                            b, e, st, Lb = rs
+                            big = [[0x5A5A] * 4 for _ in range(Lb)]
+                            for j in range(asz):
+                                big[b + j * st] = to_words(int(A[j, c]))
+                            ev["big"], ev["range"] = big, [b, e, st]
+                        else:
+                            ev["a"] = [to_words(int(A[j, c])) for j in range(asz)]
+                        events.append(ev)
+            for m_ in modsb.values():
+                L.delete_module(m_)
         # the one-limb primitive in its six argument shapes
         m = 8
         x = patterns(k, 1, m, rng)[0]
